@@ -3,11 +3,13 @@
 (* Trace specification: reads ndjson traces recorded from clusters of REAL  *)
 (* hashicorp/raft nodes (harness/sim) and, line by line,                    *)
 (*   - rebuilds the observed global state (obs, dlog, dsnaps),              *)
-(*   - maintains event-derived ghost state (leaders, agreed, grants, ...),  *)
+(*   - maintains event-derived ghost state g (leaders, agreed, grants, ...),*)
 (*   - evaluates every property predicate on every state/step (VIOL lines), *)
 (*   - evaluates the handler operators of RaftOps on every handled RPC and  *)
 (*     compares with what the code did (NONCONF lines, informational).      *)
 (* Several traces are concatenated in one file; a "reset" line starts each. *)
+(* Ghost state is derived from EVENTS and LOGGED state only, never from the *)
+(* specification's prediction of what the code should have done.            *)
 (***************************************************************************)
 EXTENDS RaftOps, Json, IOUtils
 
@@ -16,32 +18,21 @@ NLines == Len(Trace)
 
 VARIABLES
   l,        \* next line to consume
-  trno,     \* number of the current trace in the file
-  servers,  \* set of server ids of the current trace
-  tab,      \* configuration table: name -> [server -> suffrage]
-  params,   \* run parameters from the header
+  hdr,      \* [trno, servers, tab, params]
   obs,      \* [server -> record]   last observed projection of each server
   dlog,     \* [server -> log function]  durable log
   dsnaps,   \* [server -> sequence of snapshot records, newest first]
-  leaders,  \* ghost: set of <<server, term>> that became leader
-  agreed,   \* ghost: index -> entry committed by the omniscient definition
-  grants,   \* ghost: set of <<voter, term, candidate>>
-  pendVT,   \* ghost: [server -> last value written to LastVoteTerm]
-  hpend,    \* [server -> sequence of handle lines not yet matched with a state line]
-  fsmLast,  \* ghost: [server -> last index handed to its FSM in this epoch]
-  fsmOpen,  \* ghost: [server -> <<idx, term>> of the snapshot last opened]
-  bases,    \* ghost: set of [idx, content] user-restore baselines (initially {[idx 0, <<>>]})
-  everSeen, \* ghost: payload ids ever stored in any log
-  opsInv,   \* ghost: op id -> invoke line (+ line number)
-  acked,    \* ghost: sequence of <<op id, index, return line no>> for successful applies
-  burned,   \* ghost: indexes burned by user restores
-  nviol, nnonconf, nsteps
+  g,        \* record of ghosts, see GhostInit
+  cnt       \* [viol, nonconf]
 
-vars == <<l, trno, servers, tab, params, obs, dlog, dsnaps, leaders, agreed, grants, pendVT, hpend,
-          fsmLast, fsmOpen, bases, everSeen, opsInv, acked, burned, nviol, nnonconf, nsteps>>
+vars == <<l, hdr, obs, dlog, dsnaps, g, cnt>>
 
 Has(r, f) == f \in DOMAIN r
 EmptyFn == [x \in {} |-> 0]
+servers == hdr.servers
+tab     == hdr.tab
+params  == hdr.params
+trno    == hdr.trno
 
 EmptyNode == [up |-> FALSE, inc |-> 0, ct |-> 0, vt |-> 0, vc |-> "", dcommit |-> 0, role |-> "F", term |-> 0,
               leader |-> "", commit |-> 0, applied |-> 0, last |-> 0, llog |-> <<0, 0>>, lsnap |-> <<0, 0>>,
@@ -57,14 +48,41 @@ LogOf(lj) == SegsFn(lj.segs, 1)
 
 SeqToSet(s) == {s[i] : i \in 1..Len(s)}
 
+GhostInit(S) ==
+  [ leaders  |-> {},                      \* <<server, term>> that became leader (Observer, inline)
+    agreed   |-> EmptyFn,                 \* index -> entry committed by the omniscient definition
+    grants   |-> {},                      \* <<voter, term, candidate>>
+    pendVT   |-> [n \in S |-> 0],         \* last value written to LastVoteTerm
+    hpend    |-> [n \in S |-> <<>>],      \* handle lines not yet matched with a state line
+    fsmLast  |-> [n \in S |-> 0],         \* last index handed to the FSM in this epoch
+    fsmOpen  |-> [n \in S |-> <<0, 0>>],  \* snapshot last opened
+    bases    |-> {[idx |-> 0, content |-> <<>>]},   \* FSM-content baselines (user restores add to it)
+    burned   |-> {},                      \* indexes burned by user restores
+    everSeen |-> {},                      \* payload ids ever stored in any log
+    failed   |-> {},                      \* payload ids whose Apply definitely failed
+    inv      |-> EmptyFn,                 \* op id -> [line, t, node, up, term]
+    acked    |-> {},                      \* <<op id, index, return line>> of successful applies
+    lastAck  |-> EmptyFn,
+    lastAckR |-> EmptyFn,                 \* <<leader, term, follower>> -> line at which the leader RECEIVED the last successful response                 \* <<leader, term, follower>> -> line of the last successful AE/HB/IS handling
+    contact  |-> EmptyFn,                 \* <<leader, follower>> -> time (us) of the last response received
+    isrep    |-> [n \in S |-> <<0, 0>>],  \* <<snapshot index, consecutive installs without progress>>
+    blocked  |-> {},                      \* unordered pairs that cannot communicate
+    notif    |-> [n \in S |-> <<>>],      \* values consumed from NotifyCh, this incarnation
+    trans    |-> [n \in S |-> <<>>],      \* leadership transitions (TRUE gain / FALSE loss), this incarnation
+    pvGrants |-> {},                      \* <<candidate, term, voter>>: pre-vote grants that reached the candidate
+    slog     |-> [n \in S |-> EmptyFn],   \* durable log as of the last state line (dlog moves at store events)
+    seenTerm |-> [n \in S |-> 0],         \* highest term n was told about by somebody else
+    stopAt   |-> -1,                      \* time faults stopped, -1 if not
+    probeOK  |-> FALSE ]
+
 -----------------------------------------------------------------------------
 (* reporting *)
 Say(kind, prop, pred, detail) ==
   PrintT(kind \o "|" \o prop \o "|" \o pred \o "|" \o ToString(trno) \o "|" \o ToString(l) \o "|" \o ToString(detail))
-
-\* V is a set of <<prop, pred, detail>>
 ReportV(V) == \A v \in V : Say("VIOL", v[1], v[2], v[3])
 ReportN(V) == \A v \in V : Say("NONCONF", v[1], v[2], v[3])
+Count(V, N) == cnt' = [viol |-> cnt.viol + Cardinality(V), nonconf |-> cnt.nonconf + Cardinality(N)]
+Judge(V, N) == ReportV(V) /\ ReportN(N) /\ Count(V, N)
 
 -----------------------------------------------------------------------------
 (* durable-state helpers over explicit arguments (so they work on primed values) *)
@@ -80,7 +98,8 @@ HoldsThrough(lv, sv, ll, ag, j) ==
   \A i \in 1..j : \/ i <= SnapIdxOf(sv)
                   \/ (i \in DOMAIN lv /\ lv[i] = EntryOf(ll, ag, i))
 
-\* omniscient commit definition on a global state (o, dl, ds)
+\* omniscient commit definition on a global state (o, dl, ds): entries of leader ld that are on a
+\* strict majority of the VOTERS of its latest configuration, through an entry of its own term
 CommittedBy(o, dl, ds, ag, ld) ==
   LET T  == o[ld].term
       vs == Voters(tab, o[ld].cl)
@@ -98,7 +117,6 @@ FoldCommitted(o, dl, ds, ag, S) ==
 
 ActiveLeaders(o) == {n \in servers : o[n].up /\ o[n].role = "L"}
 
-\* entries newly found committed that contradict what was agreed before (C03)
 AgreedConflicts(o, dl, ds, ag) ==
   UNION { LET c == CommittedBy(o, dl, ds, ag, ld)
           IN {<<"C03", "AgreedStable", <<ld, i, c[i], ag[i]>>>> : i \in {k \in DOMAIN c : k \in DOMAIN ag /\ ag[k] # c[k]}}
@@ -111,7 +129,6 @@ LogMatchingPair(la, lb) ==
      la[i][1] = lb[i][1] => \A k \in (DOMAIN la) \cap (DOMAIN lb) : k <= i => la[k] = lb[k]
 TermsMonotone(lg) == \A i, j \in DOMAIN lg : i < j => lg[i][1] <= lg[j][1]
 
-\* step predicates on a handled AppendEntries (preLog, request, postLog, response)
 AESuccessOK(m, postLog, resp) ==
   resp.ok => \A k \in 1..Len(m.entries) :
                AEIdx(m.entries[k]) \in DOMAIN postLog /\ postLog[AEIdx(m.entries[k])] = AEEnt(m.entries[k])
@@ -127,36 +144,53 @@ NodeRec(o, lg) == [term |-> o.term, ct |-> o.ct, role |-> o.role, leader |-> o.l
                    log |-> lg, llog |-> o.llog, lsnap |-> o.lsnap, commit |-> o.commit, applied |-> o.applied,
                    cl |-> o.cl, cli |-> o.cli, cc |-> o.cc, cci |-> o.cci, xfer |-> o.xfer]
 CmpFields == {"term", "ct", "role", "leader", "vt", "vc", "llog", "lsnap", "commit", "applied", "cl", "cli", "cc", "cci"}
-DiffFields(p, o, lg) == {f \in CmpFields : p[f] # o[f]} \cup (IF p.log # lg THEN {"log"} ELSE {})
-
+DiffFields(p, o, lg) == {<<f, p[f], o[f]>> : f \in {x \in CmpFields : p[x] # o[x]}} \cup (IF p.log # lg THEN {<<"log">>} ELSE {})
 AEReq(q) == [term |-> q.term, leader |-> q.leader, prev |-> q.prev, prevterm |-> q.prevterm, commit |-> q.commit, entries |-> q.entries]
+
+CmdIds(ag, lo, hi) ==   \* ids of the command entries of ag in (lo, hi], in index order
+  LET RECURSIVE go(_)
+      go(i) == IF i > hi THEN <<>>
+               ELSE IF i \in DOMAIN ag /\ ag[i][2] = "cmd" THEN <<ag[i][3]>> \o go(i + 1) ELSE go(i + 1)
+  IN go(lo + 1)
+
+\* content at index i is faithful if it is some baseline's content followed by the agreed commands
+\* above that baseline, and every index in between is agreed (or burned)
+ContentFaithful(content, i, ag, bs, bd) ==
+  \E b \in bs : /\ b.idx <= i
+                /\ \A k \in (b.idx + 1)..i : k \in DOMAIN ag \/ k <= MaxSet(bd)
+                /\ content = b.content \o CmdIds(ag, b.idx, i)
+
+\* newest configuration entry of the agreed history at or below i: <<index, name>> (<<0, NoCfg>> if none)
+AgreedCfgAt(ag, i) ==
+  LET C == {k \in DOMAIN ag : k <= i /\ ag[k][2] = "cfg"}
+  IN IF C = {} THEN <<0, NoCfg>> ELSE <<MaxSet(C), ag[MaxSet(C)][3]>>
+
+\* can n exchange messages with a quorum of the voters of its latest configuration
+Reachable(a, b, bl) == a = b \/ ({a, b} \notin bl)
+CanReachQuorum(n, o, bl) ==
+  LET vs == Voters(tab, o[n].cl)
+  IN 2 * Cardinality({v \in vs : v \in servers /\ (v = n \/ (o[v].up /\ Reachable(n, v, bl)))}) > Cardinality(vs)
 
 -----------------------------------------------------------------------------
 Init ==
-  /\ l = 1 /\ trno = 0 /\ servers = {} /\ tab = EmptyFn /\ params = EmptyFn
+  /\ l = 1
+  /\ hdr = [trno |-> 0, servers |-> {}, tab |-> EmptyFn, params |-> EmptyFn]
   /\ obs = EmptyFn /\ dlog = EmptyFn /\ dsnaps = EmptyFn
-  /\ leaders = {} /\ agreed = EmptyFn /\ grants = {} /\ pendVT = EmptyFn /\ hpend = EmptyFn
-  /\ fsmLast = EmptyFn /\ fsmOpen = EmptyFn /\ bases = {} /\ everSeen = {} /\ opsInv = EmptyFn /\ acked = <<>>
-  /\ burned = {} /\ nviol = 0 /\ nnonconf = 0 /\ nsteps = 0
+  /\ g = GhostInit({})
+  /\ cnt = [viol |-> 0, nonconf |-> 0]
 
-Count(V, N) == /\ nviol' = nviol + Cardinality(V) /\ nnonconf' = nnonconf + Cardinality(N) /\ nsteps' = nsteps + 1
-Quiet == Count({}, {})
+Quiet == UNCHANGED cnt
+Keep  == UNCHANGED <<hdr, obs, dlog, dsnaps>>
 
 DoReset(ln) ==
   LET S == SeqToSet(ln.servers) IN
-  /\ trno' = trno + 1 /\ servers' = S /\ tab' = ln.cfgtab /\ params' = ln.params
+  /\ hdr' = [trno |-> hdr.trno + 1, servers |-> S, tab |-> ln.cfgtab, params |-> ln.params]
   /\ obs' = [n \in S |-> EmptyNode] /\ dlog' = [n \in S |-> EmptyFn] /\ dsnaps' = [n \in S |-> <<>>]
-  /\ leaders' = {} /\ agreed' = EmptyFn /\ grants' = {} /\ pendVT' = [n \in S |-> 0] /\ hpend' = [n \in S |-> <<>>]
-  /\ fsmLast' = [n \in S |-> 0] /\ fsmOpen' = [n \in S |-> <<0, 0>>] /\ bases' = {[idx |-> 0, content |-> <<>>]}
-  /\ everSeen' = {} /\ opsInv' = EmptyFn /\ acked' = <<>> /\ burned' = {}
+  /\ g' = GhostInit(S)
   /\ Quiet
 
-UnchangedGhosts == UNCHANGED <<leaders, grants, pendVT, fsmLast, fsmOpen, bases, opsInv, acked, burned>>
-UnchangedHdr == UNCHANGED <<trno, servers, tab, params>>
-
-(* ---- a state line (also crash / down lines): merge the projection, update agreed, judge ---- *)
+(* ---- step predicates on one handled RPC (pre, request, post, response) ---- *)
 StepPreds(n, h, pre, preLog, post, postLog, postSn) ==
-  \* a repeated grant to the same candidate in the same term is the same vote, not a new one
   LET regrant == h.kind = "rv" /\ h.regrant IN
   IF h.kind \in {"ae", "hb"} /\ Has(h, "resp") THEN
       (IF AESuccessOK(AEReq(h.req), postLog, h.resp) THEN {} ELSE {<<"C04", "AESuccess", <<n, h.id>>>>})
@@ -175,47 +209,71 @@ Conformance(n, h, pre, preLog, post, postLog) ==
   IF ~Has(h, "resp") THEN {}
   ELSE IF h.kind \in {"ae", "hb"} THEN
      LET p == AEHandle(NodeRec(pre, preLog), AEReq(h.req))
-         d == DiffFields(p.st, post, postLog) \cup (IF p.resp # h.resp THEN {"resp"} ELSE {})
+         d == DiffFields(p.st, post, postLog) \cup (IF p.resp # h.resp THEN {<<"resp", p.resp, h.resp>>} ELSE {})
      IN IF d = {} THEN {} ELSE {<<"AE", "handler", <<n, h.id, d>>>>}
   ELSE IF h.kind = "rv" THEN
      LET p == RVHandle(NodeRec(pre, preLog), h.req, tab)
-         d == DiffFields(p.st, post, postLog) \cup (IF p.resp # h.resp THEN {"resp"} ELSE {})
+         d == DiffFields(p.st, post, postLog) \cup (IF p.resp # h.resp THEN {<<"resp", p.resp, h.resp>>} ELSE {})
      IN IF d = {} THEN {} ELSE {<<"RV", "handler", <<n, h.id, d>>>>}
   ELSE IF h.kind = "pv" THEN
      LET p == PVHandle(NodeRec(pre, preLog), h.req, tab)
      IN IF p = h.resp THEN {} ELSE {<<"PV", "handler", <<n, h.id, p, h.resp>>>>}
   ELSE IF h.kind = "is" THEN
      LET p == ISHandle(NodeRec(pre, preLog), h.req, params.mono, params.trailing)
-         d == DiffFields(p.st, post, postLog) \cup (IF p.resp # h.resp THEN {"resp"} ELSE {})
+         d == DiffFields(p.st, post, postLog) \cup (IF p.resp # h.resp THEN {<<"resp", p.resp, h.resp>>} ELSE {})
      IN IF d = {} THEN {} ELSE {<<"IS", "handler", <<n, h.id, d>>>>}
   ELSE {}
+
+(* ---- what a restart must produce from the durable image (C10) ---- *)
+RestartPreds(n, pre, post, lg, sn) ==
+  LET si    == SnapIdxOf(sn)
+      C     == {k \in DOMAIN lg : k > si /\ lg[k][2] = "cfg"}
+      expCl == IF C # {} THEN <<MaxSet(C), lg[MaxSet(C)][3]>>
+               ELSE IF Len(sn) > 0 THEN <<sn[1].cfgidx, sn[1].cfg>> ELSE <<0, NoCfg>>
+      ll    == LogLast(lg)
+      expLL == IF ll = 0 THEN <<0, 0>> ELSE <<ll, lg[ll][1]>>
+      again == pre.inc > 0      \* not the first start: pre is the image left by the crash / shutdown
+  IN (IF post.term = post.ct /\ (~again \/ post.ct = pre.ct) THEN {} ELSE {<<"C10", "RestartTerm", <<n, pre.ct, post.ct, post.term>>>>})
+     \cup (IF ~again \/ (post.vt = pre.vt /\ post.vc = pre.vc) THEN {} ELSE {<<"C10", "RestartVote", <<n, pre.vt, pre.vc, post.vt, post.vc>>>>})
+     \cup (IF post.llog = expLL THEN {} ELSE {<<"C10", "RestartLastLog", <<n, post.llog, expLL>>>>})
+     \cup (IF post.lsnap = <<si, SnapTermOf(sn)>> THEN {} ELSE {<<"C10", "RestartLastSnapshot", <<n, post.lsnap, si>>>>})
+     \cup (IF <<post.cli, post.cl>> = expCl THEN {} ELSE {<<"C10", "RestartConfiguration", <<n, <<post.cli, post.cl>>, expCl>>>>})
+     \cup (LET E == IF params.ct THEN Max(si, Min(post.dcommit, ll)) ELSE si     \* how far the FSM must have been fed
+           IN IF params.norestore \/ (g.fsmLast[n] <= E /\ \A k \in DOMAIN lg : (k > si /\ k <= E /\ lg[k][2] = "cmd") => k <= g.fsmLast[n])
+              THEN {} ELSE {<<"C10", "RestartFSMPosition", <<n, g.fsmLast[n], si, E>>>>})
 
 DoState(ln) ==
   LET n      == ln.n
       st     == ln.st
       pre    == obs[n]
       post   == Merge(pre, st)
-      preLog == dlog[n]
-      postLog == IF Has(st, "log") THEN LogOf(st.log) ELSE preLog
+      preLog == g.slog[n]
+      postLog == IF Has(st, "log") THEN LogOf(st.log) ELSE dlog[n]
+      vSync  == IF ~Has(st, "log") /\ dlog[n] # preLog /\ ln.ev = "state" /\ pre.up
+                THEN {<<"HARNESS", "LogChangedWithoutProjection", n>>} ELSE {}
       preSn  == dsnaps[n]
       postSn == IF Has(st, "snaps") THEN st.snaps ELSE preSn
       o2     == [obs EXCEPT ![n] = post]
       dl2    == [dlog EXCEPT ![n] = postLog]
       ds2    == [dsnaps EXCEPT ![n] = postSn]
+      agreed == g.agreed
       dirty  == Has(st, "log") \/ Has(st, "snaps") \/ post.role # pre.role \/ post.cl # pre.cl \/ post.up # pre.up
       conf   == IF dirty THEN AgreedConflicts(o2, dl2, ds2, agreed) ELSE {}
       ag2    == IF dirty THEN FoldCommitted(o2, dl2, ds2, agreed, ActiveLeaders(o2)) ELSE agreed
+      newAg  == (DOMAIN ag2) \ (DOMAIN agreed)
       sameInc == post.inc = pre.inc /\ pre.up /\ post.up
+      started == ln.ev = "state" /\ Has(ln, "cause") /\ ln.cause = "started"
       \* ---- predicates
       vTerm  == (IF post.ct >= pre.ct THEN {} ELSE {<<"C06", "DurableTermDecreased", <<n, pre.ct, post.ct>>>>})
                 \cup (IF sameInc /\ post.term < pre.term THEN {<<"C06", "TermDecreased", <<n, pre.term, post.term>>>>} ELSE {})
-                \cup (IF post.up /\ post.term # post.ct THEN {<<"C06", "TermNotDurable", <<n, post.term, post.ct>>>>} ELSE {})
+                \cup (IF post.up /\ post.term > post.ct THEN {<<"C06", "TermNotDurable", <<n, post.term, post.ct>>>>} ELSE {})
       vCommit == (IF post.up /\ post.commit > post.last THEN {<<"C05", "CommitBeyondLast", <<n, post.commit, post.last>>>>} ELSE {})
                  \cup (IF sameInc /\ post.commit < pre.commit THEN {<<"C05", "CommitDecreased", <<n, pre.commit, post.commit>>>>} ELSE {})
                  \cup (IF post.up
                        THEN {<<"C05", "CommitNotAgreed", <<n, i>>>> :
                                i \in {k \in ((IF sameInc THEN pre.commit ELSE 0) + 1)..post.commit :
-                                        k \notin burned /\ (k \notin DOMAIN ag2 \/ (k \in DOMAIN postLog /\ postLog[k] # ag2[k]))}}
+                                        k > MaxSet(g.burned) /\ (k \notin DOMAIN ag2 \/
+                                           (k > SnapIdxOf(postSn) /\ k \in DOMAIN postLog /\ postLog[k] # ag2[k]))}}
                        ELSE {})
       vLog   == IF ~Has(st, "log") THEN {} ELSE
                 (IF TermsMonotone(postLog) THEN {} ELSE {<<"C04", "TermsNotMonotone", <<n>>>>})
@@ -224,130 +282,269 @@ DoState(ln) ==
                         i \in {k \in DOMAIN agreed : k \in DOMAIN preLog /\ preLog[k] = agreed[k] /\ k \in DOMAIN postLog /\ postLog[k] # preLog[k]}}
                 \cup {<<"C03", "AgreedEntryTruncated", <<n, i>>>> :
                         i \in {k \in DOMAIN agreed : k \in DOMAIN preLog /\ preLog[k] = agreed[k] /\ k \notin DOMAIN postLog /\ k > SnapIdxOf(postSn)}}
+                \cup (IF Cardinality({k \in DOMAIN postLog : postLog[k][2] = "cfg" /\ k \notin DOMAIN ag2 /\ k > SnapIdxOf(postSn)}) <= 1 THEN {}
+                      ELSE {<<"C07", "TwoUncommittedConfigs", <<n, {k \in DOMAIN postLog : postLog[k][2] = "cfg" /\ k \notin DOMAIN ag2}>>>>})
+                \cup {<<"C08", "FailedOpStored", <<n, postLog[k][3]>>>> : k \in {j \in DOMAIN postLog : postLog[j][3] \in g.failed}}
+      vOnce  == {<<"C08", "CommittedTwice", <<i, ag2[i][3]>>>> :
+                   i \in {k \in newAg : ag2[k][2] = "cmd" /\ \E j \in DOMAIN ag2 : j # k /\ ag2[j][2] = "cmd" /\ ag2[j][3] = ag2[k][3]}}
       vHole  == IF ~(Has(st, "log") \/ Has(st, "snaps")) THEN {} ELSE
                 {<<"C11", "Hole", <<n, i>>>> : i \in {k \in (SnapIdxOf(postSn) + 1)..DurableLast(postLog, postSn) : k \notin DOMAIN postLog}}
       vLast  == IF post.up /\ post.last > DurableLast(postLog, postSn)
                 THEN {<<"C11", "ReportedBeyondDurable", <<n, post.last, DurableLast(postLog, postSn)>>>>} ELSE {}
-      hs     == IF ln.ev = "state" THEN hpend[n] ELSE <<>>
+      vLead  == IF post.up /\ post.role = "F" /\ post.leader # "" /\ <<post.leader, post.term>> \notin g.leaders
+                THEN {<<"C18", "LeaderNeverLedThisTerm", <<n, post.leader, post.term>>>>} ELSE {}
+      \* a self-initiated term increase (not learnt from anybody, not a leadership transfer) needs pre-vote
+      \* grants for that term from a quorum of the server's voters -- which an isolated server cannot get
+      vInfl  == IF post.ct > pre.ct /\ sameInc /\ params.prevote /\ ~pre.xfer /\ ~post.xfer /\ post.ct > g.seenTerm[n]
+                   /\ Cardinality({v \in Voters(tab, pre.cl) : v = n \/ <<n, post.ct, v>> \in g.pvGrants}) < QuorumSize(tab, pre.cl)
+                THEN {<<"C14", "TermRaisedWithoutPreVoteQuorum", <<n, pre.ct, post.ct, {x \in g.pvGrants : x[1] = n /\ x[2] = post.ct}>>>>} ELSE {}
+      vStart == IF started THEN RestartPreds(n, pre, post, postLog, postSn) ELSE {}
+      hs     == IF ln.ev = "state" THEN g.hpend[n] ELSE <<>>
       clean  == Has(ln, "clean") /\ ln.clean
       vStep  == IF Len(hs) = 1 /\ clean THEN StepPreds(n, hs[1], pre, preLog, post, postLog, postSn) ELSE {}
       nc     == IF Len(hs) = 1 /\ clean /\ pre.up /\ post.up THEN Conformance(n, hs[1], pre, preLog, post, postLog) ELSE {}
-      V      == conf \cup vTerm \cup vCommit \cup vLog \cup vHole \cup vLast \cup vStep
+      V      == vSync \cup conf \cup vTerm \cup vCommit \cup vLog \cup vOnce \cup vHole \cup vLast \cup vLead \cup vInfl \cup vStart \cup vStep
   IN
-  /\ obs' = o2 /\ dlog' = dl2 /\ dsnaps' = ds2 /\ agreed' = ag2
-  /\ hpend' = [hpend EXCEPT ![n] = <<>>]
-  /\ everSeen' = IF Has(st, "log") THEN everSeen \cup {postLog[i][3] : i \in DOMAIN postLog} ELSE everSeen
-  /\ ReportV(V) /\ ReportN(nc) /\ Count(V, nc)
-  /\ UNCHANGED <<leaders, grants, pendVT, fsmLast, fsmOpen, bases, opsInv, acked, burned>>
-  /\ UnchangedHdr
+  /\ obs' = o2 /\ dlog' = dl2 /\ dsnaps' = ds2
+  /\ g' = [g EXCEPT !.agreed = ag2, !.hpend[n] = <<>>, !.slog[n] = postLog,
+                    !.everSeen = IF Has(st, "log") THEN @ \cup {postLog[i][3] : i \in DOMAIN postLog} ELSE @]
+  /\ Judge(V, nc)
+  /\ UNCHANGED hdr
 
 DoRole(ln) ==
   LET n == ln.n
-      V == IF ln.role # "L" THEN {} ELSE
-           {<<"C01", "TwoLeadersInTerm", <<n, x[1], ln.term>>>> : x \in {y \in leaders : y[2] = ln.term /\ y[1] # n}}
+      gained == ln.role = "L"
+      lost   == ln.role # "L" /\ Len(g.trans[n]) > 0 /\ g.trans[n][Len(g.trans[n])]
+      voters == Voters(tab, obs[n].cl)
+      got    == {v \in voters : <<v, ln.term, n>> \in g.grants}
+      V == IF ~gained THEN {} ELSE
+           {<<"C01", "TwoLeadersInTerm", <<n, x[1], ln.term>>>> : x \in {y \in g.leaders : y[2] = ln.term /\ y[1] # n}}
+           \cup (IF Cardinality(got) >= QuorumSize(tab, obs[n].cl) THEN {}
+                 ELSE {<<"C01", "ElectedWithoutQuorum", <<n, ln.term, got, voters>>>>})
            \cup {<<"C03", "LeaderIncomplete", <<n, ln.term, i>>>> :
-                   i \in {k \in DOMAIN agreed : k \notin burned /\ k > SnapIdxOf(dsnaps[n]) /\ ~(k \in DOMAIN dlog[n] /\ dlog[n][k] = agreed[k])}}
+                   i \in {k \in DOMAIN g.agreed : k > MaxSet(g.burned) /\ k > SnapIdxOf(dsnaps[n]) /\ ~(k \in DOMAIN dlog[n] /\ dlog[n][k] = g.agreed[k])}}
            \cup (IF IsVoter(tab, obs[n].cl, n) THEN {} ELSE {<<"C07", "NonVoterElected", <<n, ln.term, obs[n].cl>>>>})
   IN
-  /\ leaders' = IF ln.role = "L" THEN leaders \cup {<<n, ln.term>>} ELSE leaders
-  /\ ReportV(V) /\ Count(V, {})
-  /\ UNCHANGED <<obs, dlog, dsnaps, agreed, grants, pendVT, hpend, fsmLast, fsmOpen, bases, everSeen, opsInv, acked, burned>>
-  /\ UnchangedHdr
+  /\ g' = [g EXCEPT !.leaders = IF gained THEN @ \cup {<<n, ln.term>>} ELSE @,
+                    !.trans[n] = IF gained THEN Append(@, TRUE) ELSE IF lost THEN Append(@, FALSE) ELSE @,
+                    !.contact = IF gained THEN [p \in {<<n, f>> : f \in servers} |-> ln.t] @@ @ ELSE @]
+  /\ obs' = [obs EXCEPT ![n].role = ln.role, ![n].term = ln.term]
+  /\ Judge(V, {}) /\ UNCHANGED <<hdr, dlog, dsnaps>>
 
 DoSend(ln) ==
   LET n == ln.n
-      V == IF ln.kind \in {"ae", "hb", "is"} /\ <<n, ln.req.term>> \notin leaders
+      V == IF ln.kind \in {"ae", "hb", "is"} /\ <<n, ln.req.term>> \notin g.leaders
            THEN {<<"C01", "ActsAsLeaderWithoutWinning", <<n, ln.kind, ln.req.term>>>>} ELSE {}
-  IN /\ ReportV(V) /\ Count(V, {})
-     /\ UNCHANGED <<obs, dlog, dsnaps, agreed, leaders, grants, pendVT, hpend, fsmLast, fsmOpen, bases, everSeen, opsInv, acked, burned>>
-     /\ UnchangedHdr
+  IN Judge(V, {}) /\ Keep /\ UNCHANGED g
 
 DoHandle(ln) ==
-  LET n == ln.n
-      g == IF ln.kind = "rv" /\ Has(ln, "resp") /\ ln.resp.granted THEN {<<n, ln.req.term, ln.req.cand>>} ELSE {}
-      V == {<<"C06", "TwoVotesInTerm", <<n, x[2], x[3], ln.req.cand>>>> :
-              x \in {y \in grants : g # {} /\ y[1] = n /\ y[2] = ln.req.term /\ y[3] # ln.req.cand}}
-  IN /\ hpend' = [hpend EXCEPT ![n] = Append(@, [regrant |-> (g # {} /\ g \subseteq grants)] @@ ln)]
-     /\ grants' = grants \cup g
-     /\ ReportV(V) /\ Count(V, {})
-     /\ UNCHANGED <<obs, dlog, dsnaps, agreed, leaders, pendVT, fsmLast, fsmOpen, bases, everSeen, opsInv, acked, burned>>
-     /\ UnchangedHdr
+  LET n  == ln.n
+      gr == IF ln.kind = "rv" /\ Has(ln, "resp") /\ ln.resp.granted THEN {<<n, ln.req.term, ln.req.cand>>} ELSE {}
+      ok == ln.kind \in {"ae", "hb", "is"} /\ Has(ln, "resp") /\ ln.resp.ok
+      V  == {<<"C06", "TwoVotesInTerm", <<n, x[2], x[3], ln.req.cand>>>> :
+               x \in {y \in g.grants : gr # {} /\ y[1] = n /\ y[2] = ln.req.term /\ y[3] # ln.req.cand}}
+            \cup (IF ln.kind = "is" /\ ok /\ g.isrep[n][1] = ln.req.idx /\ g.isrep[n][2] >= 2
+                  THEN {<<"C12", "SameSnapshotInstalledAgain", <<n, ln.req.idx, g.isrep[n][2] + 1>>>>} ELSE {})
+  IN /\ g' = [g EXCEPT !.hpend[n] = Append(@, [regrant |-> (gr # {} /\ gr \subseteq g.grants)] @@ ln),
+                       !.grants = @ \cup gr,
+                       !.seenTerm[n] = IF ln.kind \in {"ae", "hb", "is", "rv"} THEN Max(@, ln.req.term) ELSE @,
+                       !.lastAck = IF ok THEN [p \in {<<ln.src, ln.req.term, n>>} |-> l] @@ @ ELSE @,
+                       !.isrep[n] = IF ln.kind = "is" /\ ok
+                                    THEN (IF @[1] = ln.req.idx THEN <<@[1], @[2] + 1>> ELSE <<ln.req.idx, 1>>)
+                                    ELSE IF ln.kind = "ae" /\ ok /\ Len(ln.req.entries) > 0 THEN <<0, 0>> ELSE @]
+     /\ Judge(V, {}) /\ Keep
+
+DoDeliver(ln) ==  \* a request was handed to ln.n: from now on it knows the sender's term
+  /\ g' = [g EXCEPT !.seenTerm[ln.n] = IF ln.kind \in {"ae", "hb", "is", "rv"} THEN Max(@, ln.term) ELSE @]
+  /\ Quiet /\ Keep
+
+DoReply(ln) ==   \* a response reached the caller ln.n from ln.dst
+  /\ g' = [g EXCEPT !.contact = IF Has(ln, "resp") /\ ln.kind \in {"ae", "hb", "is"}
+                                THEN [p \in {<<ln.n, ln.dst>>} |-> ln.t] @@ @ ELSE @,
+                    !.lastAckR = IF Has(ln, "resp") /\ ln.kind \in {"ae", "hb", "is"} /\ ln.resp.ok /\ ln.resp.term <= obs[ln.n].term
+                                 THEN [p \in {<<ln.n, obs[ln.n].term, ln.dst>>} |-> l] @@ @ ELSE @,
+                    !.pvGrants = IF Has(ln, "resp") /\ ln.kind = "pv" /\ ln.resp.granted THEN @ \cup {<<ln.n, ln.resp.term, ln.dst>>} ELSE @,
+                    !.seenTerm[ln.n] = IF Has(ln, "resp") /\ (ln.kind \in {"ae", "hb", "is"} \/ (ln.kind \in {"rv", "pv"} /\ ~ln.resp.granted))
+                                       THEN Max(@, ln.resp.term) ELSE @]
+  /\ Quiet /\ Keep
 
 DoStore(ln) ==
   LET n == ln.n
       isVT == ln.op = "stableset" /\ Has(ln, "key") /\ ln.key = "LastVoteTerm" /\ Has(ln, "ival")
       isVC == ln.op = "stableset" /\ Has(ln, "key") /\ ln.key = "LastVoteCand" /\ Has(ln, "sval")
-      g  == IF isVC /\ ln.sval = n THEN {<<n, pendVT[n], n>>} ELSE {}
+      gr == IF isVC /\ ln.sval = n THEN {<<n, g.pendVT[n], n>>} ELSE {}
       V  == {<<"C06", "TwoVotesInTerm", <<n, x[2], x[3], n>>>> :
-               x \in {y \in grants : g # {} /\ y[1] = n /\ y[2] = pendVT[n] /\ y[3] # n}}
-  IN /\ pendVT' = IF isVT THEN [pendVT EXCEPT ![n] = ln.ival] ELSE pendVT
-     /\ grants' = grants \cup g
-     /\ ReportV(V) /\ Count(V, {})
-     /\ UNCHANGED <<obs, dlog, dsnaps, agreed, leaders, hpend, fsmLast, fsmOpen, bases, everSeen, opsInv, acked, burned>>
-     /\ UnchangedHdr
-
-CmdIds(ag, lo, hi) ==   \* ids of the command entries of ag in (lo, hi], in index order, as a sequence
-  LET RECURSIVE go(_)
-      go(i) == IF i > hi THEN <<>>
-               ELSE IF i \in DOMAIN ag /\ ag[i][2] = "cmd" THEN <<ag[i][3]>> \o go(i + 1) ELSE go(i + 1)
-  IN go(lo + 1)
-
-\* snapshot / restore content at index i is faithful if it is some baseline's content followed by the
-\* agreed commands above that baseline, and every index in between is agreed (or burned)
-ContentFaithful(content, i, ag) ==
-  \E b \in bases : /\ b.idx <= i
-                   /\ \A k \in (b.idx + 1)..i : k \in DOMAIN ag \/ k \in burned
-                   /\ content = b.content \o CmdIds(ag, b.idx, i)
+               x \in {y \in g.grants : gr # {} /\ y[1] = n /\ y[2] = g.pendVT[n] /\ y[3] # n}}
+      isSL == ln.op = "storelogs" /\ Has(ln, "entries")
+      isDR == ln.op = "delrange" /\ ~Has(ln, "err")
+      lg2  == IF isSL THEN [i \in {AEIdx(ln.entries[k]) : k \in 1..Len(ln.entries)} |->
+                              AEEnt(ln.entries[CHOOSE k \in 1..Len(ln.entries) : AEIdx(ln.entries[k]) = i])] @@ dlog[n]
+              ELSE IF isDR THEN DelRange(dlog[n], ln.min, ln.max) ELSE dlog[n]
+      dl2  == [dlog EXCEPT ![n] = lg2]
+      \* a leader uses a new configuration as soon as it has appended it (raft.go appendConfigurationEntry)
+      cfgK == IF isSL /\ obs[n].up /\ obs[n].role = "L"
+              THEN {k \in 1..Len(ln.entries) : ln.entries[k][3] = "cfg" /\ ln.entries[k][2] = obs[n].term} ELSE {}
+      o2   == IF cfgK = {} THEN obs
+              ELSE [obs EXCEPT ![n].cl = ln.entries[MaxSet(cfgK)][4], ![n].cli = ln.entries[MaxSet(cfgK)][1]]
+      conf == IF isSL THEN AgreedConflicts(o2, dl2, dsnaps, g.agreed) ELSE {}
+      \* the leader counts its own write under the configuration it had when it wrote (commitment.match in
+      \* dispatchLogs precedes commitment.setConfiguration), then switches: both are "in force" at this instant
+      ag1  == IF isSL THEN FoldCommitted(obs, dl2, dsnaps, g.agreed, ActiveLeaders(obs)) ELSE g.agreed
+      ag2  == IF isSL THEN FoldCommitted(o2, dl2, dsnaps, ag1, ActiveLeaders(o2)) ELSE g.agreed
+  IN /\ g' = [g EXCEPT !.pendVT[n] = IF isVT THEN ln.ival ELSE @, !.grants = @ \cup gr, !.agreed = ag2]
+     /\ dlog' = dl2 /\ obs' = o2
+     /\ Judge(V \cup conf, {}) /\ UNCHANGED <<hdr, dsnaps>>
 
 DoFsm(ln) ==
   LET n == ln.n IN
   IF ln.op = "apply" THEN
     LET i == ln.idx
         e == <<ln.term, ln.ty, ln.id>>
-        V == (IF i \in DOMAIN agreed /\ agreed[i] = e THEN {} ELSE {<<"C02", "AppliedNotAgreed", <<n, i, e>>>>})
-             \cup (IF i > fsmLast[n] THEN {} ELSE {<<"C02", "ApplyOutOfOrder", <<n, i, fsmLast[n]>>>>})
+        V == (IF i \in DOMAIN g.agreed /\ g.agreed[i] = e THEN {} ELSE {<<"C02", "AppliedNotAgreed", <<n, i, e>>>>})
+             \cup (IF i > g.fsmLast[n] THEN {} ELSE {<<"C02", "ApplyOutOfOrder", <<n, i, g.fsmLast[n]>>>>})
              \cup {<<"C02", "SkippedCommand", <<n, k>>>> :
-                     k \in {j \in (fsmLast[n] + 1)..(i - 1) : j \notin burned /\ (j \notin DOMAIN agreed \/ agreed[j][2] = "cmd")}}
-    IN /\ fsmLast' = [fsmLast EXCEPT ![n] = Max(@, i)]
-       /\ ReportV(V) /\ Count(V, {})
-       /\ UNCHANGED <<obs, dlog, dsnaps, agreed, leaders, grants, pendVT, hpend, fsmOpen, bases, everSeen, opsInv, acked, burned>>
-       /\ UnchangedHdr
+                     k \in {j \in (g.fsmLast[n] + 1)..(i - 1) : j > MaxSet(g.burned) /\ (j \notin DOMAIN g.agreed \/ g.agreed[j][2] = "cmd")}}
+    IN /\ g' = [g EXCEPT !.fsmLast[n] = Max(@, i)]
+       /\ Judge(V, {}) /\ Keep
   ELSE IF ln.op = "restore" THEN
-    LET i == fsmOpen[n][1]
-        V == IF ContentFaithful(ln.content, i, agreed) THEN {} ELSE {<<"C02", "RestoreNotAgreedState", <<n, i, ln.content>>>>}
-    IN /\ fsmLast' = [fsmLast EXCEPT ![n] = i]
-       /\ ReportV(V) /\ Count(V, {})
-       /\ UNCHANGED <<obs, dlog, dsnaps, agreed, leaders, grants, pendVT, hpend, fsmOpen, bases, everSeen, opsInv, acked, burned>>
-       /\ UnchangedHdr
-  ELSE /\ Quiet /\ UNCHANGED <<obs, dlog, dsnaps, agreed, leaders, grants, pendVT, hpend, fsmLast, fsmOpen, bases, everSeen, opsInv, acked, burned>>
-       /\ UnchangedHdr
+    LET i == g.fsmOpen[n][1]
+        V == IF ContentFaithful(ln.content, i, g.agreed, g.bases, g.burned) THEN {}
+             ELSE {<<"C02", "RestoreNotAgreedState", <<n, i, ln.content>>>>}
+    IN /\ g' = [g EXCEPT !.fsmLast[n] = i]
+       /\ Judge(V, {}) /\ Keep
+  ELSE Quiet /\ Keep /\ UNCHANGED g
 
 DoSnap(ln) ==
   LET n == ln.n IN
   IF ln.op = "open" THEN
-     /\ fsmOpen' = [fsmOpen EXCEPT ![n] = <<ln.idx, ln.term>>]
-     /\ Quiet /\ UNCHANGED <<obs, dlog, dsnaps, agreed, leaders, grants, pendVT, hpend, fsmLast, bases, everSeen, opsInv, acked, burned>>
-     /\ UnchangedHdr
+     /\ g' = [g EXCEPT !.fsmOpen[n] = <<ln.idx, ln.term>>]
+     /\ Quiet /\ Keep
   ELSE IF ln.op = "close" THEN
-     LET i == ln.idx
-         V == (IF ContentFaithful(ln.content, i, agreed) THEN {} ELSE {<<"C11", "SnapshotContentNotAgreed", <<n, i, ln.content>>>>})
-              \cup (IF i \in DOMAIN agreed /\ agreed[i][1] # ln.term THEN {<<"C11", "SnapshotTermWrong", <<n, i, ln.term>>>>} ELSE {})
-     IN /\ ReportV(V) /\ Count(V, {})
-        /\ UNCHANGED <<obs, dlog, dsnaps, agreed, leaders, grants, pendVT, hpend, fsmLast, fsmOpen, bases, everSeen, opsInv, acked, burned>>
-        /\ UnchangedHdr
-  ELSE /\ Quiet /\ UNCHANGED <<obs, dlog, dsnaps, agreed, leaders, grants, pendVT, hpend, fsmLast, fsmOpen, bases, everSeen, opsInv, acked, burned>>
-       /\ UnchangedHdr
+     LET i  == ln.idx
+         isUser == Has(ln, "user") /\ ln.user     \* written by Raft.Restore: content is the caller's
+         b2 == IF isUser THEN g.bases \cup {[idx |-> i, content |-> ln.content]} ELSE g.bases
+         d2 == IF isUser THEN g.burned \cup {i} ELSE g.burned
+         ec == AgreedCfgAt(g.agreed, i)
+         V  == (IF ContentFaithful(ln.content, i, g.agreed, b2, d2) THEN {}
+                ELSE {<<"C11", "SnapshotContentNotAgreed", <<n, i, ln.content>>>>})
+               \cup (IF i \in DOMAIN g.agreed /\ g.agreed[i][1] # ln.term /\ ~isUser THEN {<<"C11", "SnapshotTermWrong", <<n, i, ln.term>>>>} ELSE {})
+               \cup (IF isUser \/ <<ln.cfgidx, ln.cfg>> = ec THEN {}
+                     ELSE {<<"C11", "SnapshotConfigurationWrong", <<n, i, <<ln.cfgidx, ln.cfg>>, ec>>>>})
+     IN /\ g' = [g EXCEPT !.bases = b2, !.burned = d2]
+        /\ Judge(V, {}) /\ Keep
+  ELSE Quiet /\ Keep /\ UNCHANGED g
 
 DoRestart(ln) ==
-  /\ fsmLast' = [fsmLast EXCEPT ![ln.n] = 0]
-  /\ hpend' = [hpend EXCEPT ![ln.n] = <<>>]
-  /\ Quiet /\ UNCHANGED <<obs, dlog, dsnaps, agreed, leaders, grants, pendVT, fsmOpen, bases, everSeen, opsInv, acked, burned>>
-  /\ UnchangedHdr
+  /\ g' = [g EXCEPT !.fsmLast[ln.n] = 0, !.hpend[ln.n] = <<>>, !.notif[ln.n] = <<>>, !.trans[ln.n] = <<>>, !.isrep[ln.n] = <<0, 0>>]
+  /\ Quiet /\ Keep
+
+DoStartFail(ln) ==
+  Judge({<<"C10", "NewRaftDidNotReturn", <<ln.n, ln.why>>>>}, {}) /\ Keep /\ UNCHANGED g
+
+DoInvoke(ln) ==
+  /\ g' = [g EXCEPT !.inv = [p \in {ln.op} |-> [line |-> l, t |-> ln.t, n |-> ln.n, up |-> (IF Has(ln, "nodeup") THEN ln.nodeup ELSE TRUE),
+                                                 term |-> (IF Has(ln, "term") THEN ln.term ELSE 0), kind |-> ln.kind]] @@ @]
+  /\ Quiet /\ Keep
+
+DoReturn(ln) ==
+  LET n   == ln.n
+      iv  == IF ln.op \in DOMAIN g.inv THEN g.inv[ln.op] ELSE [line |-> 0, t |-> 0, n |-> n, up |-> TRUE, term |-> 0, kind |-> ln.kind]
+      ok  == ln.err = ""
+      i   == ln.idx
+      defFail == ln.err \in {"NotLeader", "EnqueueTimeout", "TransferInProgress"}
+      vApply == IF ln.kind # "apply" THEN {} ELSE
+                (IF ok /\ ~(i \in DOMAIN g.agreed /\ g.agreed[i][2] = "cmd" /\ g.agreed[i][3] = ln.arg)
+                 THEN {<<"C08", "AckedNotCommittedThere", <<n, ln.op, i, ln.arg>>>>} ELSE {})
+                \cup (IF ok /\ ln.resp # ("r:" \o ToString(i) \o ":" \o ln.arg)
+                      THEN {<<"C08", "WrongResponse", <<n, ln.op, i, ln.resp>>>>} ELSE {})
+                \cup (IF ok THEN {<<"C08", "AckOrder", <<ln.op, i, a>>>> : a \in {x \in g.acked : x[3] < iv.line /\ x[2] >= i}} ELSE {})
+                \cup (IF defFail /\ ln.arg \in g.everSeen THEN {<<"C08", "FailedOpStored", <<n, ln.arg, ln.err>>>>} ELSE {})
+      vBarrier == IF ln.kind = "barrier" /\ ok
+                  THEN {<<"C08", "BarrierBeforeApply", <<n, ln.op, i, k>>>> :
+                          k \in {j \in DOMAIN g.agreed : j < i /\ g.agreed[j][2] = "cmd" /\ j > g.fsmLast[n] /\ j > MaxSet(g.burned)}}
+                  ELSE {}
+      vs  == Voters(tab, obs[n].cl)
+      fresh == {q \in vs : q = n \/ (<<n, iv.term, q>> \in DOMAIN g.lastAck /\ g.lastAck[<<n, iv.term, q>>] > iv.line)}
+      \* weaker: acknowledgements that REACHED the caller after the call (they may have been produced before it)
+      late  == {q \in vs : q = n \/ (<<n, iv.term, q>> \in DOMAIN g.lastAckR /\ g.lastAckR[<<n, iv.term, q>>] > iv.line)}
+      vVerify == IF ln.kind = "verify" /\ ok /\ ~(2 * Cardinality(late) > Cardinality(vs))
+                 THEN {<<"C09", "VerifiedWithoutMajorityOfVoters", <<n, ln.op, iv.term, late, vs>>>>}
+                 ELSE IF ln.kind = "verify" /\ ok /\ ~(2 * Cardinality(fresh) > Cardinality(vs))
+                 THEN {<<"C09", "VerifiedOnAckProducedBeforeCall", <<n, ln.op, iv.term, fresh, vs>>>>} ELSE {}
+      vDown == IF ~iv.up /\ ln.err # "Shutdown" THEN {<<"C17", "CallAfterShutdownNotRefused", <<n, ln.op, ln.kind, ln.err>>>>} ELSE {}
+      vMember == IF ln.kind \in {"addvoter", "addnonvoter", "demote", "remove"} /\ ok
+                    /\ ~(i \in DOMAIN g.agreed /\ g.agreed[i][2] = "cfg")
+                 THEN {<<"C03", "AckedConfigNotCommitted", <<n, ln.op, i>>>>} ELSE {}
+      V == vApply \cup vBarrier \cup vVerify \cup vDown \cup vMember
+  IN /\ g' = [g EXCEPT !.acked = IF ln.kind = "apply" /\ ok THEN @ \cup {<<ln.op, i, l>>} ELSE @,
+                       !.failed = IF ln.kind = "apply" /\ defFail THEN @ \cup {ln.arg} ELSE @,
+                       !.probeOK = @ \/ (ln.kind = "apply" /\ ok /\ g.stopAt >= 0 /\ iv.t >= g.stopAt)]
+     /\ Judge(V, {}) /\ Keep
+
+DoHook(ln) ==
+  LET V == IF ln.name = "appendConfigurationEntry" /\ ~(ln.args[2] = ln.args[3] /\ ln.args[4] >= ln.args[5])
+           THEN {<<"C07", "ConfigChangeNotGated", ln.args>>} ELSE {}
+  IN Judge(V, {}) /\ Keep /\ UNCHANGED g
+
+DoPart(ln) ==
+  /\ g' = [g EXCEPT !.blocked = {{p[1], p[2]} : p \in SeqToSet(ln.blocked)}]
+  /\ Quiet /\ Keep
+
+DoNotify(ln) ==   \* a value was consumed from NotifyCh of ln.n
+  LET n == ln.n
+      k == Len(g.notif[n]) + 1
+      V == (IF k <= Len(g.trans[n]) /\ g.trans[n][k] = ln.val THEN {}
+            ELSE {<<"C18", "NotificationMismatch", <<n, k, ln.val, g.trans[n]>>>>})
+           \cup (IF k > 1 /\ g.notif[n][k - 1] = ln.val THEN {<<"C18", "NotAlternating", <<n, k, ln.val>>>>} ELSE {})
+  IN /\ g' = [g EXCEPT !.notif[n] = Append(@, ln.val)]
+     /\ Judge(V, {}) /\ Keep
+
+DoTick(ln) ==   \* time is about to advance from ln.t: every current leader must have a recent majority (C13)
+  LET bound == 2 * params.lease_us
+      V == {<<"C13", "LeaderWithoutRecentMajority", <<ld, ln.t>>>> :
+              ld \in {x \in ActiveLeaders(obs) :
+                        LET vs == Voters(tab, obs[x].cl)
+                        IN ~(2 * Cardinality({q \in vs : q = x \/ (<<x, q>> \in DOMAIN g.contact /\ ln.t - g.contact[<<x, q>>] <= bound)})
+                               > Cardinality(vs))}}
+  IN Judge(IF Has(params, "leasecheck") /\ params.leasecheck THEN V ELSE {}, {}) /\ Keep /\ UNCHANGED g
+
+DoStopFaults(ln) == g' = [g EXCEPT !.stopAt = ln.t] /\ Quiet /\ Keep
+
+\* the harness says the cluster is at rest (faults stopped long ago, everything delivered): C12, C18, C20
+DoQuiesce(ln) ==
+  LET L  == ActiveLeaders(obs)
+      ld == CHOOSE x \in L : TRUE
+      members == IF L = {} THEN {} ELSE {m \in CfgMembers(tab, obs[ld].cl) : m \in servers /\ obs[m].up}
+      vConv == IF ~ln.expectconv THEN {} ELSE
+               (IF Cardinality(L) = 1 THEN {} ELSE {<<"C12", "NotExactlyOneLeader", L>>})
+               \cup (IF g.probeOK THEN {} ELSE {<<"C12", "ProbeWriteNotAcknowledged", ln.t>>})
+               \cup (IF Cardinality(L) # 1 THEN {} ELSE
+                     {<<"C12", "MemberNotCaughtUp", <<m, obs[m].applied, obs[ld].commit>>>> :
+                        m \in {x \in members : obs[x].applied < obs[ld].commit}})
+      vFsm  == {<<"C20", "FinalFSMNotAgreedState", <<m, ln.fsm[m]>>>> :
+                 m \in {x \in servers : obs[x].up /\ x \in DOMAIN ln.fsm
+                          /\ ~ContentFaithful(ln.fsm[x], g.fsmLast[x], g.agreed, g.bases, g.burned)}}
+      vNote == {<<"C18", "RestValueWrong", <<m, g.notif[m], obs[m].role>>>> :
+                 m \in {x \in servers : obs[x].up /\ ln.notifydrained
+                          /\ (LET s == g.notif[x] IN (IF Len(s) = 0 THEN FALSE ELSE s[Len(s)]) # (obs[x].role = "L"))}}
+               \cup {<<"C18", "NotificationCount", <<m, g.notif[m], g.trans[m]>>>> :
+                 m \in {x \in servers : obs[x].up /\ ln.notifydrained /\ g.notif[x] # g.trans[x]}}
+               \cup {<<"C18", "LeaderChStale", <<m, ln.leaderch[m], g.trans[m]>>>> :
+                 m \in {x \in servers : obs[x].up /\ x \in DOMAIN ln.leaderch /\ Len(g.trans[x]) > 0
+                          /\ ln.leaderch[x] # (IF g.trans[x][Len(g.trans[x])] THEN "true" ELSE "false")}}
+      vStable == IF Has(ln, "expectstable") /\ ln.expectstable /\ Cardinality(g.leaders) # 1
+                 THEN {<<"C13", "LeadershipChangedInFaultFreeRun", g.leaders>>} ELSE {}
+  IN Judge(vConv \cup vFsm \cup vNote \cup vStable, {}) /\ Keep /\ UNCHANGED g
+
+DoStranded(ln) ==
+  Judge({<<"C17", "FutureNeverResolved", <<ln.n, ln.op, ln.kind, ln.inapi, ln.nodeup>>>>}, {}) /\ Keep /\ UNCHANGED g
+
+DoLeak(ln) ==
+  Judge({<<"C17", "GoroutineBlockedForEver", ln.msg>>}, {}) /\ Keep /\ UNCHANGED g
 
 DoOther(ln) ==
-  /\ (IF ln.ev = "end" THEN PrintT("TRACE_END|" \o ToString(trno) \o "|" \o ToString(l) \o "|" \o ToString(nviol) \o "|" \o ToString(nnonconf)) ELSE TRUE)
-  /\ Quiet /\ UNCHANGED <<obs, dlog, dsnaps, agreed, leaders, grants, pendVT, hpend, fsmLast, fsmOpen, bases, everSeen, opsInv, acked, burned>>
-  /\ UnchangedHdr
+  /\ (IF ln.ev = "end" THEN PrintT("TRACE_END|" \o ToString(trno) \o "|" \o ToString(l) \o "|" \o ToString(cnt.viol) \o "|" \o ToString(cnt.nonconf)) ELSE TRUE)
+  /\ Quiet /\ Keep /\ UNCHANGED g
 
 Next ==
   /\ l <= NLines
@@ -357,12 +554,24 @@ Next ==
        [] ln.ev \in {"state", "crash", "down"} -> DoState(ln)
        [] ln.ev = "role"    -> DoRole(ln)
        [] ln.ev = "send"    -> DoSend(ln)
-       [] ln.ev = "dup"     -> DoOther(ln)
        [] ln.ev = "handle"  -> DoHandle(ln)
+       [] ln.ev = "reply"   -> DoReply(ln)
+       [] ln.ev = "deliver" -> DoDeliver(ln)
        [] ln.ev = "store"   -> DoStore(ln)
        [] ln.ev = "fsm"     -> DoFsm(ln)
        [] ln.ev = "snap"    -> DoSnap(ln)
        [] ln.ev = "restart" -> DoRestart(ln)
+       [] ln.ev = "startfail" -> DoStartFail(ln)
+       [] ln.ev = "invoke"  -> DoInvoke(ln)
+       [] ln.ev = "return"  -> DoReturn(ln)
+       [] ln.ev = "hook"    -> DoHook(ln)
+       [] ln.ev = "part"    -> DoPart(ln)
+       [] ln.ev = "notify"  -> DoNotify(ln)
+       [] ln.ev = "tick"    -> DoTick(ln)
+       [] ln.ev = "faultsstopped" -> DoStopFaults(ln)
+       [] ln.ev = "quiesce" -> DoQuiesce(ln)
+       [] ln.ev = "stranded" -> DoStranded(ln)
+       [] ln.ev = "leak"    -> DoLeak(ln)
        [] OTHER             -> DoOther(ln)
 
 Spec == Init /\ [][Next]_vars
